@@ -104,6 +104,8 @@ structure Cfg where
   /-- F-C13-1 repair: a never-accepted child that is aborted while still handshaking is marked
       `fd_closed`, so `reap_closed` reclaims it. -/
   fixReapOrphan : Bool := false
+  /-- F-C06-5 repair: the retransmit counters are reset when the handshake completes. -/
+  fixHsReset : Bool := false
   deriving DecidableEq, Repr, Inhabited
 
 /-- `advertised_window` (tcp.rs:1335). -/
